@@ -558,7 +558,10 @@ def check_sampling(rep, repo):
                 counts.append(ch_[0][0][3])
     elif lists_t[0] == 'comp' and len(lists_t[1]) == 1:
         counts.append(lists_t[1][0][0][3])
-    if counts:
+    if counts and any(d[0] in ('while', 'top') or not (d[0] == 'call' and d[1] == S('range')) for d in counts if not range_is_n1(d)):
+        # the lists are produced by a loop whose trip count is not a range(...) term: not judged (a range with another bound is)
+        rep.inconclusive('C08.R5', g.where, 'the loop that draws the first-side lists has a trip count in closed form', got=[show(d)[:40] for d in counts])
+    elif counts:
         rep.check(all(range_is_n1(d) for d in counts), 'C08.R5', g.where, 'one preference list is drawn for each of the n1 first-side agents', got=[show(d)[:40] for d in counts],
                   want='range(%s)' % g.params[0], construct='number of first-side lists ' + ', '.join(show(d)[:30] for d in counts))
     draws = []
